@@ -267,6 +267,23 @@ func (prop) Drive(d *core.Driver) error {
 	for i, src := range typedprog.DependencyPrograms() {
 		progs = append(progs, Prog{ID: fmt.Sprintf("deps%d", i), Origin: "family", Kind: "dependency-program", Src: src})
 	}
+	for i, src := range initOrderPrograms() {
+		progs = append(progs, Prog{ID: fmt.Sprintf("initorder%d", i), Origin: "family", Kind: "init-order-program", Src: src})
+	}
+	crp := constantRangePrograms()
+	if !d.Thorough() {
+		// a deterministic third of them per seed in the quick tier
+		var sub []string
+		for i, src := range crp {
+			if (i+int(d.Seed))%3 == 0 {
+				sub = append(sub, src)
+			}
+		}
+		crp = sub
+	}
+	for i, src := range crp {
+		progs = append(progs, Prog{ID: fmt.Sprintf("constrange%d", i), Origin: "family", Kind: "constant-range-program", Src: src})
+	}
 	// The worker keeps the sweep away from the constructs of the open findings:
 	// it evaluates the scope predicates (scope.go) on the reference's syntax
 	// tree and type information and does not judge a program inside a scope.
